@@ -217,6 +217,13 @@ def _z3min(vals, lt):
         if isinstance(m, Sym) or isinstance(b, Sym):
             c = (b < m) if lt else (b > m)
             if isinstance(c, SymBool):
+                if isinstance(b, symx.SymFP) or isinstance(m, symx.SymFP):
+                    fb = b if isinstance(b, symx.SymFP) else \
+                        symx.SymFP(symx.z3.FPVal(float(b), m.sort))
+                    fm = m if isinstance(m, symx.SymFP) else \
+                        symx.SymFP(symx.z3.FPVal(float(m), b.sort))
+                    m = symx.SymFP(symx.z3.If(c.e, fb.e, fm.e))
+                    continue
                 k, ea, eb = symx._coerce2(b, m)
                 m = symx._wrap(k, symx.z3.If(c.e, ea, eb))
                 continue
@@ -274,7 +281,23 @@ class SymNDArray(_np.ndarray, metaclass=_NDMeta):
             return r
         return sup()
 
+    def view(self, *a, **k):
+        if self.dtype == object and a and isinstance(a[0], (str, _np.dtype)):
+            # reinterpreting bytes ('>S1', 'uint8'): the symbolic cells keep
+            # standing for the numbers
+            return self
+        return _np.ndarray.view(self, *a, **k)
+
     def astype(self, dtype, *a, **k):
+        if self.dtype == object and _np.dtype(dtype).kind in 'fiu' and \
+                any(isinstance(x, (symx.SymFP, symx.SymBVInt))
+                    for x in self.flat):
+            out = _np.empty(self.shape, dtype=object).view(SymNDArray)
+            of = out.reshape(-1)
+            for i, x in enumerate(self.reshape(-1)):
+                of[i] = x.astype(dtype) if isinstance(x, Sym) else \
+                    _np.dtype(dtype).type(x)
+            return out
         if self.dtype == object and _np.dtype(dtype).kind == 'f' and \
                 _has_sym(self):
             # a float cast of symbolic reals is the identity in "real" mode
@@ -607,6 +630,60 @@ def make_scipy_interpolate_stub():
     return m
 
 
+class SymLog(object):
+    """float32 natural log of a symbolic float32 x, only usable as
+    LOG(x) / LOG(float32(2)) (the base-2 exponent computation of pack2d).
+    The quotient is a fresh float32 s tied to x by: the exact table value
+    (computed with the real numpy float32 log at harness time) when x is a
+    power of two or the float just below one; m < s < m+1 when x lies between
+    2**m and 2**(m+1) away from both by more than 2**-16 relatively.  The
+    remaining slivers next to the powers of two are assumed away (stated
+    bound): float32 log rounding there is not modelled."""
+
+    BAND = (-24, 24)
+
+    def __init__(self, x):
+        self.x = x
+
+    def __truediv__(self, c):
+        z3 = symx.z3
+        ln2 = float(_np.log(_np.float32(2.)))
+        if not (isinstance(c, (float, _np.floating)) and
+                abs(float(c) - ln2) < 1e-6):
+            raise NotImplementedError('log stub: only LOG(x)/LOG(2)')
+        ctx = symx.cur()
+        ctx.nfresh += 1
+        s = z3.FP('log2!%d' % ctx.nfresh, symx.F32)
+        x = self.x.e
+        f32 = lambda v: z3.FPVal(float(v), symx.F32)  # noqa
+        cases = []
+        lo, hi = self.BAND
+        for m in range(lo, hi + 1):
+            p = _np.float32(2.0) ** _np.float32(m)
+            pn = _np.float32(2.0) ** _np.float32(m + 1)
+            tv = _np.float32(_np.log(p) / _np.log(_np.float32(2.)))
+            cases.append(z3.Implies(z3.fpEQ(x, f32(p)),
+                                    z3.fpEQ(s, f32(tv))))
+            below = _np.nextafter(pn, _np.float32(0))
+            tb = _np.float32(_np.log(below) / _np.log(_np.float32(2.)))
+            cases.append(z3.Implies(z3.fpEQ(x, f32(below)),
+                                    z3.fpEQ(s, f32(tb))))
+            a = _np.float32(float(p) * (1 + 2.0 ** -16))
+            b = _np.float32(float(pn) * (1 - 2.0 ** -16))
+            cases.append(z3.Implies(
+                z3.And(z3.fpGEQ(x, f32(a)), z3.fpLEQ(x, f32(b))),
+                z3.And(z3.fpGT(s, f32(m)), z3.fpLT(s, f32(m + 1)))))
+            # slivers: outside the model
+            cases.append(z3.Not(z3.And(z3.fpGT(x, f32(p)),
+                                       z3.fpLT(x, f32(a)))))
+            cases.append(z3.Not(z3.And(z3.fpGT(x, f32(b)),
+                                       z3.fpLT(x, f32(below)))))
+        cases.append(z3.fpGEQ(x, f32(_np.float32(2.0) ** lo)))
+        cases.append(z3.fpLT(x, f32(_np.float32(2.0) ** (hi + 1))))
+        ctx.assume(z3.And(*cases))
+        return symx.SymFP(s)
+
+
 def make_numpy_shim():
     over = {
         'isscalar': lambda x: True if isinstance(x, (Sym, SymNaN))
@@ -657,8 +734,10 @@ def make_numpy_shim():
         realf = getattr(_np, name)
 
         def alloc(shape, dtype=float, *a, **k):
-            if np.__dict__.get('_objfloat') and dtype is not None and \
-                    _np.dtype(dtype).kind == 'f':
+            if np.__dict__.get('_objfloat') and dtype is not None and (
+                    _np.dtype(dtype).kind == 'f' or (
+                        np.__dict__.get('_objfloat') == 'all' and
+                        _np.dtype(dtype).kind in 'iu')):
                 # "real" float mode: arrays the library allocates for
                 # results must be able to hold symbolic reals
                 r = realf(shape, float, *a, **k).astype(object)
@@ -667,6 +746,53 @@ def make_numpy_shim():
         return alloc
     for _n in ('zeros', 'ones', 'empty'):
         over[_n] = _mk_alloc(_n)
+
+    def _zeros_like(a, dtype=None, **k):
+        if isinstance(a, _np.ndarray) and a.dtype == object and \
+                dtype is None:
+            r = _np.zeros(a.shape, float).astype(object)
+            return r.view(SymNDArray)
+        return _np.zeros_like(a, dtype=dtype, **k)
+    over['zeros_like'] = _zeros_like
+
+    class _Caster(object):
+        """np.int32 / np.float32 used as functions on symbolic values"""
+
+        def __init__(self, real, kind, bits):
+            self._real, self._kind, self._bits = real, kind, bits
+
+        def __call__(self, x=0, *a, **k):
+            if isinstance(x, _np.ndarray) and x.dtype == object:
+                return _map(self, x)
+            if isinstance(x, symx.SymFP):
+                if self._kind == 'i':
+                    return symx.fp_trunc_to_bv(x)
+                return x.to(symx.F32 if self._bits == 32 else symx.F64)
+            if isinstance(x, symx.SymBVInt):
+                if self._kind == 'i':
+                    return x
+                return x.to_fp(symx.F32 if self._bits == 32 else symx.F64)
+            if isinstance(x, (SymReal, SymInt)):
+                return x if self._kind == 'f' or isinstance(x, SymInt) \
+                    else x.trunc()
+            return self._real(x, *a, **k)
+
+        def __getattr__(self, k):
+            return getattr(self._real, k)
+
+        def __instancecheck__(self, o):
+            return isinstance(o, self._real)
+    over['int32'] = _Caster(_np.int32, 'i', 32)
+    over['float32'] = _Caster(_np.float32, 'f', 32)
+    over['float64'] = _Caster(_np.float64, 'f', 64)
+
+    def _log(x, *a, **k):
+        if isinstance(x, symx.SymFP):
+            return SymLog(x)
+        if _needs(x):
+            raise NotImplementedError('np.log on symbolic array')
+        return _np.log(x, *a, **k)
+    over['log'] = _log
 
     class _Shim(types.ModuleType):
         def __init__(self, name, real, table):
